@@ -15,6 +15,7 @@ import (
 
 	"github.com/mdlayher/corerad/internal/netstate"
 	"github.com/mdlayher/corerad/internal/plugin"
+	"github.com/mdlayher/corerad/internal/system"
 	"github.com/mdlayher/corerad/verifrt/ev"
 	"github.com/mdlayher/corerad/verifrt/sdnotify"
 	"github.com/mdlayher/corerad/verifrt/vsched"
@@ -44,7 +45,7 @@ func c08Sig(s string) os.Signal {
 func c08Cases() []c08Case {
 	var cs []c08Case
 	for _, sig := range []string{"TERM", "HUP", "INT"} {
-		for _, sc := range []string{"serve-e2e", "after-reinit", "final-ra-fails", "idle", "pending-delay", "rs-at-stop", "periodic-due", "armed-write-2", "armed-write-2-fails", "armed-write-2-enobufs", "armed-write-3-unicast", "armed-fwd-3", "armed-write-1", "armed-reinit-initial"} {
+		for _, sc := range []string{"serve-e2e", "after-reinit", "final-ra-fails", "idle", "pending-delay", "rs-at-stop", "periodic-due", "armed-write-2", "armed-write-2-fails", "armed-write-2-enobufs", "armed-write-3-unicast", "armed-fwd-3", "armed-write-1", "armed-reinit-initial", "link-change-at-stop"} {
 			if sig == "INT" && sc != "armed-write-3-unicast" && sc != "idle" && sc != "serve-e2e" && sc != "after-reinit" && sc != "final-ra-fails" {
 				continue
 			}
@@ -70,8 +71,13 @@ func c08Scenario(c c08Case) *vsched.Scenario {
 			if c.Sig == "INT" {
 				cfg.Preference = ndp.Low
 			}
-			cfg.Plugins = []plugin.Plugin{plugin.NewMTU(1480), &plugin.DNSSL{Lifetime: time.Hour, DomainNames: []string{"example.com"}}}
-			a = newAdvWorld(cfg, true, c.Script == "after-reinit" || c.Script == "armed-reinit-initial")
+			// ... and a ::/64 wildcard over an address list that changes 500 ms after the start
+			// (2001:db8:a::/64 before, 2001:db8:b::/64 after): the final RA is the normal RA
+			// of the moment it is sent, not of an earlier moment.
+			cfg.Plugins = []plugin.Plugin{plugin.NewMTU(1480), &plugin.DNSSL{Lifetime: time.Hour, DomainNames: []string{"example.com"}},
+				&plugin.Prefix{Auto: true, Prefix: netip.MustParsePrefix("::/64"), OnLink: true, Autonomous: true, ValidLifetime: time.Hour, PreferredLifetime: time.Minute}}
+			system.VerifSetAddresser(c08Addresser{start: time.Now()})
+			a = newAdvWorld(cfg, true, c.Script == "after-reinit" || c.Script == "armed-reinit-initial" || c.Script == "link-change-at-stop")
 			a.latency = c.Latency
 			stop := func() {
 				a.term.set(c08Sig(c.Sig))
@@ -209,6 +215,14 @@ func c08Scenario(c c08Case) *vsched.Scenario {
 					vsched.Mark()
 					vsched.Recv("harness:armed", arm)
 					stop()
+				case "link-change-at-stop":
+					// The link state changes (and the watcher then halts, as it does when the
+					// daemon stops) at the instant of the stop.
+					vsched.Sleep(1500 * time.Millisecond)
+					vsched.Mark()
+					vsched.Send("harness:link-change", a.watchC, netstate.LinkDown)
+					stop()
+					vsched.Close("harness:watcher-halts", a.watchC)
 				case "armed-write-1":
 					// The stop arrives while the interface is being initialised: its initial RA
 					// (non-zero lifetime) is on its way out.
@@ -292,6 +306,11 @@ func c08Check(c c08Case, x *vsched.Exec, a *advWorld, stopAt time.Duration) (out
 	}
 	_ = stopIdx
 	switch {
+	case terminal && c.Script == "link-change-at-stop" && len(finals) <= 1:
+		// The link changed state at the stop instant: whether the session that is being
+		// torn down for that reason still sends a final RA is outside the statement's
+		// quantifier (stop instants relative to transmissions and solicitations); promptness,
+		// success and silence after return are judged below as for every script.
 	case terminal && len(finals) != 1:
 		bad("C08:final-ra-count", "terminating: %d zero-lifetime multicast RAs, want exactly 1", len(finals))
 	case !terminal && len(finals) != 0:
@@ -332,7 +351,23 @@ func c08Check(c c08Case, x *vsched.Exec, a *advWorld, stopAt time.Duration) (out
 		for i := range ws {
 			if ws[i].RA != nil && ws[i].RA.RouterLifetime == 0 {
 				fin = &ws[i]
-			} else if normal == nil {
+			}
+		}
+		// The network the wildcard must expand to at the stop instant (the address list
+		// changes at 500 ms; a stop within 0.5 s of that is not judged).
+		wantNet := ""
+		switch {
+		case stopAt >= time.Second:
+			wantNet = "2001:db8:b::"
+		case stopAt < 400*time.Millisecond:
+			wantNet = "2001:db8:a::"
+		}
+		if fin != nil && wantNet != "" && c08WildNet(fin.RA) != wantNet {
+			bad("C08:final-ra-stale", "stop at %s: the final RA advertises the wildcard network %q, the interface's network at that moment is %s (the final RA is the normal RA of the moment it is sent)", stopAt, c08WildNet(fin.RA), wantNet)
+		}
+		for i := range ws {
+			// The normal RA to compare with: the latest one built for the same address list.
+			if ws[i].RA != nil && ws[i].RA.RouterLifetime != 0 && fin != nil && c08WildNet(ws[i].RA) == c08WildNet(fin.RA) {
 				normal = &ws[i]
 			}
 		}
@@ -364,4 +399,27 @@ func TestVerifC08(t *testing.T) {
 	if r.Replay == nil {
 		exploreCases(t, r, c08Cases(), name, c08Scenario, exploreOpts{Bound: 3, Budget: 40 * time.Second})
 	}
+}
+
+// c08Addresser: the interface's address moves from 2001:db8:a::/64 to 2001:db8:b::/64
+// 500 ms (virtual) after the scenario started.
+type c08Addresser struct{ start time.Time }
+
+func (a c08Addresser) AddressesByIndex(int) ([]system.IP, error) {
+	n := "2001:db8:a::1/64"
+	if time.Since(a.start) >= 500*time.Millisecond {
+		n = "2001:db8:b::1/64"
+	}
+	return []system.IP{{Address: netip.MustParsePrefix(n)}, {Address: netip.MustParsePrefix("fe80::1/64")}}, nil
+}
+func (c08Addresser) LoopbackRoutes() ([]system.Route, error) { return nil, nil }
+
+// c08WildNet is the network of the wildcard's prefix option in ra ("" if none).
+func c08WildNet(ra *ndp.RouterAdvertisement) string {
+	for _, o := range ra.Options {
+		if pi, ok := o.(*ndp.PrefixInformation); ok {
+			return pi.Prefix.String()
+		}
+	}
+	return ""
 }
